@@ -35,7 +35,7 @@ def build_lines(st, decorate, rnd):
         if decorate and idnum(n["id"]) % 5 == 3:      # LN is optional when the sequence is given: nothing may invent it
             tags = [t for t in tags if not t.startswith("LN:")]
         sq = seq_of(n["id"], n["ln"])
-        if decorate and idnum(n["id"]) % 3 == 1:      # soft-masked / ambiguous bases: the sequence text is data, not a normal form
+        if idnum(n["id"]) % 3 == 1:      # soft-masked / ambiguous bases: the sequence text is data, not a normal form
             sq = sq[:1].lower() + sq[1:-1] + ("n" if len(sq) > 1 else "")
         S.append("\t".join(["S", n["id"], sq] + tags))
     for k, l in enumerate(sorted(st["links"], key=lambda l: (l["a"], l["ao"], l["b"], l["bo"]))):
@@ -273,6 +273,11 @@ def sessions(ctx, cfgs, mode, opts_for=lambda k: {}):
             links = st["links"]
             # segment names are free text: two of seven sessions use plain integers, as graphs from other tools do - counted from 0
             # (names like "0", "1": what a program might use for its own bookkeeping) or from 5 (bubbles across the 9 | 10 boundary)
+            if k % 7 == 1:      # assembler-style ids in mixed case (Utg7 / utg12): text order is code-point order, not case-insensitive
+                rid2 = lambda x: ("Utg" if int(x[1:]) % 2 else "utg") + x[1:]      # noqa: E731
+                nodes = [dict(n, id=rid2(n["id"])) for n in nodes]
+                links = [dict(l, a=rid2(l["a"]), b=rid2(l["b"])) for l in links]
+                chroms = [dict(c, elems=[dict(e, ns=[rid2(x) for x in e["ns"]]) for e in c["elems"]]) for c in chroms]
             if k % 7 in (3, 5):
                 off = 8 if k % 7 == 3 else 3
                 rid = lambda x: str(int(x[1:]) - off)      # noqa: E731
